@@ -302,7 +302,7 @@ def widths_direct_call(b, op):
 def rule_e(ctx):
     F = ctx.facts
     b = F.one(RTRAIT + "append_subrender")
-    cls = [cb for _bb, cb in transitive_closures(F, b)]
+    cls = [b] + [cb for _bb, cb in transitive_closures(F, b)]   # (a `map` closure or the body of a `for` loop)
     ins = []
     for cb in cls:
         ins += [(cb, t) for bb, t in cb.calls(lambda cd, t: ends(cd, "TaggedLine::<T>::insert_front"))]
